@@ -2,6 +2,7 @@ let () =
   match Array.to_list Sys.argv with
   | _ :: "pos" :: _ -> L_pos.run ()
   | _ :: "unify" :: _ -> L_unify.run ()
+  | _ :: "load" :: _ -> L_load.run ()
   | _ ->
       prerr_endline "usage: oalmodel <layer>";
       exit 2
